@@ -22,6 +22,7 @@ HasErr(exp) == \E r \in 1..Len(exp) : \E c \in 1..Len(exp[r]) : exp[r][c] = Err
 
 Verdict(e) ==   \* "" = explained by the specification, otherwise the failed clause
   CASE e.ev = "set"   -> ""
+    [] e.ev = "rejected" -> IF e.raised THEN "" ELSE "a set_cells call naming an invalid cell was accepted"     \* changes nothing: ov stays
     [] e.ev = "get"   -> IF V(e.res) = Ev(e.c, ov) THEN "" ELSE "get: value differs from (workbook (+) overrides)"
     [] e.ev = "many"  -> IF Len(e.res) = Len(e.cs) /\ \A i \in 1..Len(e.cs) : V(e.res[i]) = Ev(e.cs[i], ov)
                          THEN "" ELSE "get_cells: some value differs from the single-cell value"
